@@ -1360,7 +1360,7 @@ example (vm : CoreVM.VM) (flowId : String) (args : List (String × Val))
 /-- `add_new_flow_instance` (run when a `StartFlow` event creates an instance) IS `createInst` on the abstraction: exactly one fresh
     WAITING record (no parent, no children, one head, `activated = 0`) at a uid that was not in use, appended to the order.
     Hypotheses: no shared context, the parameter evaluation of `create_flow_instance` is a frame (`ArgsFrame`), not the main flow.
-    The link to the parent (`_start_flow`) happens later and is NOT refined (the Lifetime machine has both as ONE operation). -/
+    The link to the parent (`_start_flow`) happens later: `corevm_startflow_link_is_op` (the Lifetime machine has both as ONE operation). -/
 theorem corevm_create_is_op (hν : Function.Injective ν) (uid : CoreIndex.FUid) (cfg : CoreVM.FlowCfg) (hp : String)
     (args : List (String × Val)) (vm vm' : CoreVM.VM) (hw : Refine.WF vm) (hctx : CoreVM.lookupArg "context" args = none)
     (hargs : Refine.ArgsFrame cfg args) (hmain : cfg.id ≠ "main") (hrun : CoreVM.addNewFlowInstance uid cfg hp args vm = .ok () vm') :
@@ -1372,24 +1372,42 @@ theorem corevm_create_is_op (hν : Function.Injective ν) (uid : CoreIndex.FUid)
 example (cfg : CoreVM.FlowCfg) (evArgs : List (String × Val)) (hp : cfg.params = []) (hr : cfg.returnMembers = []) :
     Refine.ArgsFrame cfg evArgs := Refine.argsFrame_of_empty cfg evArgs hp hr
 
+/-- `_start_flow` (run by `_handle_event_matching` when the head of a created instance matches its `StartFlow` event) IS `linkInst`
+    on the abstraction: `parent_uid := parent`, `parent.child_flow_uids.append(f)`, `activated := n`.  For a `StartFlow` event as
+    `flowStartEvent` builds it (`activated` an int ≥ 0, `source_head_uid` a string or None) and a flow without parameters. -/
+theorem corevm_startflow_link_is_op (hν : Function.Injective ν) (f : CoreIndex.FUid) (args : List (String × Val))
+    (vm vm' : CoreVM.VM) (n : Int) (parent : String) (osh : Option String) (hm : vm.r.mainUid ≠ some f)
+    (hact : CoreVM.lookupArg "activated" args = some (.int n)) (hn0 : 0 ≤ n)
+    (hsh : CoreVM.lookupArg "source_head_uid" args = some (CoreVM.optStrVal osh))
+    (hsrc : CoreVM.lookupArg "source_flow_instance_uid" args = some (.str parent))
+    (hw : Refine.WF vm) (hfp : f ≠ parent) (hnoargs : ∀ x, OMap.lookup f vm.r.fx = some x → x.arguments = [])
+    (hrun : CoreVM.startFlow f args vm = .ok () vm') :
+    (∃ x px, OMap.lookup f vm.r.fx = some x ∧ OMap.lookup parent vm.r.fx = some px) ∧
+      Refine.absVM ν φ vm' = Refine.linkInst (Refine.absVM ν φ vm) (ν f) (ν parent) n.toNat ∧ Refine.WF vm' :=
+  Refine.corevm_startFlow_is_link ν φ hν f args vm vm' n parent osh hm hact hn0 hsh hsrc hw hfp hnoargs hrun
+
 /-- every refined CoreVM step (`Refine.RefinedStep`: outermost `abortFlow` / `finishFlow`; the `EndScope`, `BeginScope`,
     `start_new_flow_instance`-label and effect-free elements of `slideStep`; `StopFlow` / `FinishFlow` processing in all forms
     (`flow_instance_uid=…`, `flow_id=…` with the loop over `flow_id_states`); non-creating `StartFlow` processing; `setFlowStatus`
-    along the status order; `updateActionStatusByEvent` for an admissible action event; `addNewFlowInstance`) IS a sequence of
-    operations of the Lifetime machine (`abort`, `finish`, `endScope`, `label`, `reactivate`, `frame`, `status`, `event`; at most
-    one except for the `flow_id=…` forms) on the abstraction, or the creation of an isolated instance -/
+    along the status order; `updateActionStatusByEvent` for an admissible action event; `addNewFlowInstance`; `startFlow`) IS a
+    sequence of operations of the Lifetime machine (`abort`, `finish`, `endScope`, `label`, `reactivate`, `frame`, `status`, `event`;
+    at most one except for the `flow_id=…` forms) on the abstraction, or the creation of an isolated instance (`createInst`), or the
+    link of an isolated instance to its parent (`linkInst`; creation + link = `IOp.startChild`) -/
 theorem corevm_refined_step_is_op (hν : Function.Injective ν) (hφ : Function.Injective φ) (vm vm' : CoreVM.VM) (hw : Refine.WF vm)
     (h : Refine.RefinedStep ν φ vm vm') :
     Refine.WF vm' ∧
       ((∃ ops : List IOp, (∀ op ∈ ops, Refine.Covered op) ∧
           Refine.absVM ν φ vm' = Refine.cs (ops.foldl applyOp (Refine.absVM ν φ vm))) ∨
        (∃ c fid, (Refine.absVM ν φ vm).flows c = none ∧ unlisted (Refine.absVM ν φ vm) c = true ∧
-          Refine.absVM ν φ vm' = Refine.createInst (Refine.absVM ν φ vm) c fid)) :=
+          Refine.absVM ν φ vm' = Refine.createInst (Refine.absVM ν φ vm) c fid) ∨
+       (∃ c p k cf pf, (Refine.absVM ν φ vm).flows c = some cf ∧ (Refine.absVM ν φ vm).flows p = some pf ∧ cf.children = [] ∧
+          cf.isMain = false ∧ unlisted (Refine.absVM ν φ vm) c = true ∧ c ≠ p ∧ (pf.status.listening = true ∨ 0 < k) ∧
+          Refine.absVM ν φ vm' = Refine.linkInst (Refine.absVM ν φ vm) c p k)) :=
   Refine.refinedStep_is_op ν φ hν hφ vm vm' hw h
 
-/-- PARTIAL (`corevm_lifetime_invariant` would quantify over ALL steps of `CoreVM.runToCompletion`; `_start_flow`, the new-action /
-    `Start` / conflict-resolution sites and head movement in general are not refined, and the action clauses do not transfer
-    because `absVM` forgets the outgoing events): the hierarchy part of the lifetime
+/-- PARTIAL (`corevm_lifetime_invariant` would quantify over ALL steps of `CoreVM.runToCompletion`; the new-action / `Start` /
+    conflict-resolution sites, head movement in general and the decomposition of a whole run into steps are not refined, and the
+    action clauses do not transfer because `absVM` forgets the outgoing events): the hierarchy part of the lifetime
     invariant — `FlowInv` (children form, restarted instances under their reference instance, main flow a root) and `LinkInv` (every
     listening instance is listed by its parent) — holds for the abstraction along every sequence of refined CoreVM steps. -/
 theorem corevm_hierarchy_invariant_partial (hν : Function.Injective ν) (hφ : Function.Injective φ) (vm vm' : CoreVM.VM)
